@@ -140,7 +140,11 @@ func verifyMatchRule(ruleData map[string]string,
 	// Iterate over queue and mark consumed artifacts
 	for srcPath := range srcArtifactQueue {
 		// Remove optional source prefix from source artifact path
-		// Noop if prefix is empty, or artifact does not have it
+		// Artifacts that are not located under the source prefix are not
+		// subject to the rule
+		if !strings.HasPrefix(srcPath, ruleData["srcPrefix"]) {
+			continue
+		}
 		srcBasePath := strings.TrimPrefix(srcPath, ruleData["srcPrefix"])
 
 		// Ignore artifacts not matched by rule pattern
